@@ -1234,6 +1234,7 @@ func (r *Resolver) addSubscription(triggerID uint64, add *addSubscription) error
 		updater:       updater,
 	}
 	r.triggers[triggerID] = trig
+	updater.trig = trig
 	updater.subsFn = trig.subscriptionIds
 	r.registerSubscriptionLocked(trig, s)
 
@@ -1260,7 +1261,7 @@ func (r *Resolver) addSubscription(triggerID uint64, add *addSubscription) error
 			for _, sub := range trig.snapshotSubscriptions() {
 				sub.writeError(r.errorFormatter, sub.ctx, err, sub.resolve.Response)
 			}
-			r.doneTriggerFromUpdater(triggerID)
+			r.doneTriggerFromUpdater(triggerID, trig)
 			return
 		}
 
@@ -1298,11 +1299,17 @@ func (r *Resolver) markTriggerInitialized(triggerID uint64, trig *trigger) {
 
 // doneTriggerFromUpdater performs cleanup for a trigger from a datasource/updater goroutine.
 // It detaches the trigger, runs done toClose (close completed channels), and cancels the trigger context.
-func (r *Resolver) doneTriggerFromUpdater(triggerID uint64) {
+func (r *Resolver) doneTriggerFromUpdater(triggerID uint64, trig *trigger) {
 	if r.options.Debug {
 		fmt.Printf("resolver:trigger:shutdown:%d\n", triggerID)
 	}
 	r.mu.Lock()
+	if cur, ok := r.triggers[triggerID]; ok && cur != trig {
+		// A new trigger with the same id (same input and headers) was registered after ours
+		// ended: it is not ours to tear down.
+		r.mu.Unlock()
+		return
+	}
 	res := r.detachTriggerLocked(triggerID)
 	if r.reporter != nil {
 		r.reporter.SubscriptionCountDec(res.removed)
@@ -1932,9 +1939,13 @@ type subscriptionUpdater struct {
 	done      bool
 	debug     bool
 	triggerID uint64
-	resolver  *Resolver
-	ctx       context.Context
-	subsFn    func() map[context.Context]SubscriptionIdentifier
+	// trig is the trigger instance this updater belongs to. Trigger ids are hashes of
+	// (input, headers) and are reused when the same subscription is started again, so
+	// cleanup must compare instances, not ids.
+	trig     *trigger
+	resolver *Resolver
+	ctx      context.Context
+	subsFn   func() map[context.Context]SubscriptionIdentifier
 }
 
 func (s *subscriptionUpdater) Update(data []byte) {
@@ -2014,7 +2025,7 @@ func (s *subscriptionUpdater) Done() {
 	if s.debug {
 		fmt.Printf("resolver:subscription_updater:done:%d\n", s.triggerID)
 	}
-	s.resolver.doneTriggerFromUpdater(s.triggerID)
+	s.resolver.doneTriggerFromUpdater(s.triggerID, s.trig)
 }
 
 func (s *subscriptionUpdater) CloseSubscription(id SubscriptionIdentifier) {
